@@ -86,13 +86,14 @@ func (b *Builder) build() {
 			b.funcScaffold(m.Funcs[t.Idx])
 		}
 	}
-	for _, g := range m.Globals {
-		b.globalFill(g)
-	}
+	// aliases and ifuncs before the initialisers, which may take their address
 	for _, t := range topsOf(m) {
 		if t.K == am.TopAlias {
 			b.aliasDef(m.Aliases[t.Idx])
 		}
+	}
+	for _, g := range m.Globals {
+		b.globalFill(g)
 	}
 	for _, f := range m.Funcs {
 		b.funcFill(f)
